@@ -267,11 +267,13 @@ def form_cases(draw):
             "err": [draw(st.integers(1, 3)) for _ in range(n)], "noise": draw(st.sampled_from(["none", "y_err"])),
             "q": [[draw(st.integers(-7, 7)) for _ in range(d)] for _ in range(draw(st.integers(1, 3)))],
             "mean": draw(st.sampled_from(["Constant", "Linear", "Quadratic"])), "theta": [draw(st.floats(-1.0, 1.5)) for _ in range(11)],
-            "forms": {k: draw(st.sampled_from(["float64", "int64", "int32", "float32", "fortran", "strided"])) for k in ("x", "y", "err", "q")}}
+            "forms": {k: draw(st.sampled_from(["float64", "int64", "int32", "int16", "uint8", "uint16", "float32", "fortran", "strided"])) for k in ("x", "y", "err", "q")},
+            # the lattice spacing of the coordinates, and whether they are shifted to be non-negative (unsigned types can hold them)
+            "x_step": draw(st.sampled_from([1, 1, 20, 1000, 20000])), "x_shift": draw(st.booleans())}
 
 
 def body_forms(case, ctx):
-    from props.c02_gp_posterior import as_form
+    from props.c02_gp_posterior import as_form, rescale_theta
 
     d, n = case["d"], case["n"]
     X, y, err, Q = (np.array(case[k], dtype=float) for k in ("x", "y", "err", "q"))
@@ -279,6 +281,9 @@ def body_forms(case, ctx):
     if np.ptp(y) == 0:
         raise Inconclusive("constant data")
     theta = np.array(case["theta"][: rk.mean_n_params(case["mean"], d) + 1 + d], dtype=float)
+    step, shift = float(case.get("x_step", 1)), (7.0 if case.get("x_shift") else 0.0)
+    X, Q = (X + shift) * step, (Q + shift) * step
+    theta = rescale_theta(theta, None, {"k": "SE"}, case["mean"], d, n, step, 1.0)
     f = case["forms"]
 
     def build(fx, fy, fe):
@@ -304,15 +309,16 @@ def body_forms(case, ctx):
             g_, w_ = np.asarray(g_, dtype=float), np.asarray(w_, dtype=float)
             if g_.shape != w_.shape:
                 raise Violation(f"forms-shape:{meth}", f"[{what}] {name}: shape {g_.shape} vs {w_.shape} from float64 arrays")
-            sc = np.max(np.abs(w_)) + np.max(np.abs(y)) + 1.0
+            sc = np.max(np.abs(w_)) + (np.max(np.abs(y)) + 1.0) / step        # (derivatives carry the inverse unit of the coordinates)
             e = float(np.max(np.abs(g_ - w_))) / (tol * sc) if g_.size else 0.0
             ctx.ratio("forms", e, 1.0)
             if not e <= 1:
                 raise Violation(f"forms:{meth}:" + "+".join(sorted({v for v in f.values() if v != "float64"})), f"{case['mean']} mean, noise {case['noise']}: {meth}() {name} from [{what}] "
                                 f"is {g_.ravel()[:4].tolist()}, from float64 arrays of the same numbers {w_.ravel()[:4].tolist()}")
-    ctx.nontrivial(any(v in ("int64", "int32") for v in f.values()))
+    ctx.nontrivial(any(v not in ("float64", "fortran", "strided") for v in f.values()))
     for k, v in f.items():
         ctx.event(f"{k}:{v}")
+    ctx.event(f"lattice spacing {int(step)}" + (", shifted" if shift else ""))
 
 
 SUBCHECKS = [
